@@ -192,7 +192,10 @@ pub fn gen_hist(o: &Opts, r: &mut Rng, k: u64, tier: &str) -> Vec<String> {
     let no_rot = o.ext && r.chance(1, 3) || (o.prop == "C06" && r.chance(1, 8));
     let (spec, has_suffix) = gen_spec(r, naming);
     // custom formats other than the standard one are kept out of append-restarts (finding: 20-byte slice)
-    let spec = if o.restarts > 0 { spec.rsplitn(2, ' ').nth(1).map(|s| format!("{s} 0")).unwrap() } else { spec };
+    let spec = if o.restarts > 0 && o.prop != "C06" { spec.rsplitn(2, ' ').nth(1).map(|s| format!("{s} 0")).unwrap() } else { spec };
+    // C06: restarts with every format, incl. the day-first one (text order ≠ time order)
+    let dayfirst = o.prop == "C06" && naming.starts_with("ts") && r.chance(1, 3);
+    let spec = if dayfirst { spec.rsplitn(2, ' ').nth(1).map(|s| format!("{s} 3")).unwrap() } else { spec };
     c.push(spec);
     let n: u64 = *r.pick(&[0, 1, 5, 16, 40, 64]);
     let ages = ['s', 'm', 'h', 'd'];
@@ -256,13 +259,15 @@ pub fn gen_hist(o: &Opts, r: &mut Rng, k: u64, tier: &str) -> Vec<String> {
         clock = Clock { epoch: 1_718_445_600 + r.below(1000) as i64, small: true };
     }
     let frozen = is_async && o.bg == 0;
+    // C06, TimestampsDirect: half of the histories give every operation its own second
+    let distinct = o.prop == "C06" && naming == "tsd" && (dayfirst || r.chance(1, 2));
     let nops = r.range(3, if tier == "thorough" { o.max_ops * 3 } else { o.max_ops });
     let mut seq = 0u64;
     let mut restarts_left = if o.restarts > 0 { r.range(1, o.restarts) } else { 0 };
     let mut written_since_start = false;
     let fault_kinds = ["open=0", "rename=0", "write=0", "remove=0", "gz=0", "remove=1"];
     for i in 0..nops {
-        let tick = |clock: &mut Clock, r: &mut Rng| if frozen { clock.now() } else { clock.tick(r) };
+        let tick = |clock: &mut Clock, r: &mut Rng| if frozen { clock.now() } else { if distinct { clock.epoch += 1; } clock.tick(r) };
         let roll = r.below(24);
         if roll == 0 && o.force_rot && rot.is_some() && !is_async {
             let fl = if o.faults && r.chance(1, 4) { r.pick(&fault_kinds).to_string() } else { "-".into() };
@@ -277,10 +282,13 @@ pub fn gen_hist(o: &Opts, r: &mut Rng, k: u64, tier: &str) -> Vec<String> {
             c.push("READ".into());
             // restart in the same second or later
             if r.chance(1, 2) { clock.epoch += if clock.small { *r.pick(&[1i64, 2, 61]) } else { *r.pick(&[1i64, 2, 61, 3601, 86_401]) }; }
-            append = r.chance(1, 2);
+            append = r.chance(1, 2) || (dayfirst && distinct && r.chance(1, 2));
             // known findings kept out of the random stream (see known_findings.json):
             //   tsd + append after same-second restart files (base file is re-opened)
-            if naming == "tsd" && append && o.prop != "C06x" { append = false; }
+            //   (it needs `.restart-NNNN` files, i.e. two files started within one second: histories in
+            //   which every operation has its own second cannot produce them and keep the append)
+            if naming == "tsd" && append && !distinct { append = false; }
+            if distinct { clock.epoch += 1; }
             c.push(format!("RESTART {}", cfg_line(&rot, append, cap, symlink, has_suffix)));
             written_since_start = false;
         } else if roll == 3 && o.ext && written_since_start {
@@ -361,7 +369,58 @@ pub fn gen_c09(tier: &str, seed: u64) -> Vec<Vec<String>> {
     gen_with(Opts { prop: "C09", size: false, age: true, force_rot: false, restarts: 1, cleanup: false, faults: false, ext: false, modes: false, max_ops: 40, namings: ALL, foreign: false, exist: false, bg: 0 }, tier, seed, 500, 8000)
 }
 pub fn gen_c06(tier: &str, seed: u64) -> Vec<Vec<String>> {
-    gen_with(Opts { prop: "C06", size: true, age: true, force_rot: true, restarts: 4, cleanup: false, faults: false, ext: false, modes: false, max_ops: 40, namings: ALL, foreign: false, exist: false, bg: 0 }, tier, seed, 500, 6000)
+    let mut v = gen_with(Opts { prop: "C06", size: true, age: true, force_rot: true, restarts: 4, cleanup: false, faults: false, ext: false, modes: false, max_ops: 40, namings: ALL, foreign: false, exist: false, bg: 0 }, tier, seed, 500, 6000);
+    v.extend(gen_c06_across_month_end(tier, seed));
+    v
+}
+
+/// C06, timestamp namings with every format incl. the day-first one: a run that starts at the
+/// end of a month and goes on into the next one (so that the TEXT order of the file names is not
+/// their TIME order where the format is day-first), then restarts with and without append.
+/// Every operation has its own second (no `.restart-NNNN` files: see the known finding
+/// `C06-tsd-append-after-restart-files`).
+fn gen_c06_across_month_end(tier: &str, seed: u64) -> Vec<Vec<String>> {
+    let mut root = Rng::new(seed ^ 0xC06D);
+    let mut cases = Vec::new();
+    for k in 0..n_cases(tier, 60, 1500) {
+        let mut r = root.fork();
+        let naming = *r.pick(&["tsd", "tsd", "ts"]);
+        let (spec, has_suffix) = gen_spec(&mut r, naming);
+        let fmt = *r.pick(&[3u64, 3, 0, 1, 2]);
+        let spec = spec.rsplitn(2, ' ').nth(1).map(|s| format!("{s} {fmt}")).unwrap();
+        let mut c = vec![format!("CASE flw C06 m{k}"), spec];
+        let crit = *r.pick(&["0;_", "5;_", "16;_", "_;d", "_;h", "40;d"]);
+        let rot = Some(format!("{crit};{naming};never"));
+        let cap = *r.pick(&[None, None, Some(8u64), Some(8192)]);
+        c.push(format!("CFG {}", cfg_line(&rot, false, cap, r.chance(1, 4), has_suffix)));
+        // 2024-02-29, 2024-03-31, 2024-12-31, 2025-04-30: shortly before midnight
+        let mut epoch = *r.pick(&[1_709_251_140i64, 1_711_929_540, 1_735_689_540, 1_746_057_540]) + r.below(30) as i64;
+        let mut seq = 0u64;
+        let mut writes = |c: &mut Vec<String>, r: &mut Rng, epoch: &mut i64, n: u64| {
+            for _ in 0..n {
+                *epoch += 1 + *r.pick(&[0i64, 0, 1, 7, 45]);
+                c.push(format!("W {} {} -", hex(&record(seq, r.range(2, 24))), pack(*epoch)));
+                seq += 1;
+            }
+        };
+        { let n = r.range(1, 5); writes(&mut c, &mut r, &mut epoch, n); }
+        epoch += *r.pick(&[60i64, 120, 86_400, 3 * 86_400]);           // into the next month
+        { let n = r.range(1, 6); writes(&mut c, &mut r, &mut epoch, n); }
+        for _ in 0..r.range(1, 3) {
+            c.push("SHUT".into());
+            c.push("READ".into());
+            epoch += 1 + *r.pick(&[0i64, 5, 3_600, 86_400, 40 * 86_400]);
+            c.push(format!("RESTART {}", cfg_line(&rot, r.chance(2, 3), cap, false, has_suffix)));
+            { let n = r.range(1, 5); writes(&mut c, &mut r, &mut epoch, n); }
+        }
+        c.push("SHUT".into());
+        c.push("READ".into());
+        c.push("PARTS".into());
+        c.push("SNAP".into());
+        c.push("END".into());
+        cases.push(c);
+    }
+    cases
 }
 pub fn gen_c07(tier: &str, seed: u64) -> Vec<Vec<String>> {
     let mut v = gen_c07_sync(tier, seed);
